@@ -24,7 +24,7 @@ UMAX = {"u8": 255, "u16": 65535, "u32": (1 << 32) - 1, "u64": (1 << 64) - 1, "us
 
 
 def _len_of(t):
-    return sym.mk_len(norm(t)) if norm(t)[0] == "ref" else ("len", norm(t))
+    return sym.mk_len(norm(t))
 
 
 def goals_of(e, eng=None, st=None):
